@@ -47,6 +47,8 @@ def oracle(cfg, xs, shape=None, stats=None):
   base = {"cls": cfg["cls"], "variant": variant(cfg)}
   if cfg["kw"].get("use_stochastic_rounding"):
     base["sr_infer"] = True     # stochastic-rounding flag set, inference phase
+  if cfg.get("from") is not None:
+    base["redeclared"] = True   # attributes re-assigned on a live object
   xs = np.asarray(xs, dtype=np.float32)
   try:
     q = G.build(cfg)
